@@ -41,7 +41,7 @@ class AreDependent(Case):
     prop = 'C02'
     tier = 'P'
     functions = (go.are_dependent,)
-    native_cover = False
+    native_cover = True
     assumptions = ("extra_dep_info = {} (no external alias analysis), mem40_pattern = False",
                    "addresses are decimal numerals of words or variable names starting with 's'; two different names may denote the same word",)
 
@@ -64,11 +64,11 @@ class AreDependent(Case):
         s_ = H.str(name)
         if H.symbolic:
             H.assume(z3.And(z3.PrefixOf(z3.StringVal("s("), s_.e), z3.Not(sym.numeral(s_.e))))
+        else:
+            H.assume(isinstance(s_, str) and s_.startswith("s(") and not s_.isdigit())
         return s_, None
 
     def run(self, H):
-        if not H.symbolic:
-            return
         c1, c2 = self.shape[0] == 'c', self.shape[1] == 'c'
         a1, v1 = self.addr(H, 'a1', c1)
         a2, v2 = self.addr(H, 'a2', c2)
@@ -79,7 +79,7 @@ class AreDependent(Case):
         def access(a, kind, tag):
             if kind.startswith("keccak"):
                 ln = H.word(tag + '_len')
-                return ((a, H.it.to_str(ln), kind), 2), ln
+                return ((a, H.it.to_str(ln) if H.symbolic else str(ln), kind), 2), ln
             if kind.startswith(("mstore", "sstore")):
                 return ((a, "s(9)", kind), 2), None
             return ((a, kind), 1), None
@@ -209,6 +209,13 @@ def generated_mem_blocks(tier):
             out.append("DUP1 %s %s DUP3 %s ADD SWAP2 %s" % (ld, kill, ld, st))
             out.append("DUP1 %s %s DUP2 %s ADD SWAP2 SWAP1 %s" % (ld, kill, ld, st))
             out.append("DUP2 %s %s DUP2 %s ADD SWAP2 %s" % (ld, kill, ld, st))
+    # two loads of one position with a store in between that does / does not touch the loaded word (both widths)
+    for st in ("MSTORE", "MSTORE8"):
+        for a, b in (("80", "9f"), ("80", "80"), ("80", "a0"), ("80", "61"), ("80", "7f"), ("0", "1f"), ("20", "0")):
+            out.append("PUSH %s MLOAD SWAP1 PUSH %s %s PUSH %s MLOAD" % (a, b, st, a))
+        out.append("DUP2 MLOAD SWAP1 DUP3 PUSH 1f ADD %s SWAP1 MLOAD" % st)
+    for a, b in (("1", "1"), ("1", "2")):
+        out.append("PUSH %s SLOAD SWAP1 PUSH %s SSTORE PUSH %s SLOAD" % (a, b, a))
     out += ["PUSH 10 MSTORE PUSH 10 MLOAD PUSH 14 MSTORE", "DUP1 PUSH 10 MSTORE PUSH 14 MSTORE", "DUP1 PUSH 1f MSTORE8 PUSH 0 MSTORE",
             "DUP1 PUSH 0 MSTORE PUSH 1f MSTORE8",                     # same value stored at overlapping, different positions (F24)
             "PUSH 1 SSTORE PUSH 2 SSTORE SSTORE", "PUSH 1 SSTORE SWAP1 SSTORE PUSH 1 SSTORE", "SWAP1 PUSH 2 SSTORE PUSH 1 SSTORE SSTORE",
